@@ -1,6 +1,7 @@
 import GB.Base.Proto
 import GB.C07.Spec
 import GB.C07.Glue
+import GB.C07.Wire
 import GB.C19.Model
 /-
   C07 driver.  Line formats (byte strings hex `x…`; `l:` list = hex items joined by `,`;
@@ -169,7 +170,36 @@ def judgeObs (seq : List Ctor) (tok : String) : String :=
     | _, _ => "BAD obs"
   | _ => "BAD obs token"
 
+/-- which irregularities the raw metadata frame has (branch histogram only) -/
+def rmdClass (data : Bytes) : String :=
+  if (wireLines (data ++ [13, 10])).any isCont then "cont"
+  else if data.any (fun c => c ≥ 128) then "high"
+  else if data.any (fun c => (c < 32 && c != 13 && c != 10 && c != 9) || c == 127) then "ctl"
+  else if (wireLines (data ++ [13, 10])).any (fun l => !l.isEmpty && !l.contains 58) then "nocolon"
+  else "plain"
+
 def handle : Handler
+  | ["rmd", via, allowS, pfxS, dataS], outs =>
+    match parseL allowS, parseHex pfxS, parseHex dataS with
+    | some allow, some pfx, some data =>
+      let o : Opts := { allowReq := allow, prefixReq := pfx }
+      let cls := rmdClass data
+      match readMDPairs data with
+      | none =>
+        if outs == ["fwd=0"] then s!"OK nt b=rmd-{via}-rejected-{cls}"
+        else "DIFF model=fwd:0 (ReadMIMEHeader reports an error)"
+      | some ps =>
+        match field outs "out", field outs "dl" with
+        | some outS, some dl =>
+          match parseM outS with
+          | some out =>
+            let r : Request := { lines := ps }
+            match judgeReq true o ps (targetMD .grpcws o r) (targetDeadline .grpcws o r) out dl with
+            | some v => v
+            | none => s!"OK nt b=rmd-{via}-accepted-{cls}-{if out.isEmpty then "nothing-forwarded" else "forwarded"}"
+          | none => "BAD rmd out"
+        | _, _ => if outs == ["fwd=0"] then "DIFF model=fwd:1" else "BAD rmd fields"
+    | _, _, _ => "BAD rmd line"
   | ["build", seqS], outs =>
     match (seqS.splitOn ",").mapM parseCtor with
     | none => "BAD build seq"
